@@ -28,6 +28,7 @@ import (
 	"strings"
 	"sync"
 	"sync/atomic"
+	"syscall"
 	"time"
 
 	"github.com/pdfcpu/pdfcpu/pkg/api"
@@ -65,6 +66,8 @@ func main() {
 		cmdOps()
 	case "control":
 		cmdControl()
+	case "life":
+		cmdLife()
 	case "stage":
 		stageFonts(h.Arg("--work"), h.ArgInt("--n", 9))
 		h.Summary(map[string]any{"staged": h.ArgInt("--n", 9)})
@@ -404,7 +407,57 @@ func cmdFonts() {
 
 // ------------------------------------------------------------------------------------------------ Binding 2
 
-var opKinds = []string{"read", "validate", "optimize", "stamp", "fill", "encrypt", "merge", "split", "ustamp", "fnames", "fwidth", "freload"}
+var opKinds = []string{"read", "validate", "optimize", "stamp", "fill", "encrypt", "merge", "split", "rmpages", "ustamp", "fnames", "fwidth", "freload"}
+
+// freeing: operations that free objects of the context they work on (merge frees the appended catalog in the destination,
+// page removal and optimization free the dropped objects)
+var freeing = map[string]bool{"merge": true, "rmpages": true, "optimize": true}
+
+// headlessDoc: a valid 3-page document, hand-built, whose single classic xref section starts at object 1 (no entry for
+// object 0, the head of the free list). pdfcpu repairs this silently on reading ("repaired input").
+func headlessDoc() []byte {
+	content := func(s string) string {
+		c := rawpdf.MarkerContent(s)
+		return fmt.Sprintf("<< /Length %d >>\nstream\n%s\nendstream", len(c), c)
+	}
+	page := func(c int) string {
+		return fmt.Sprintf("<< /Type /Page /Parent 2 0 R /MediaBox [0 0 300 400] /Contents %d 0 R /Resources << /Font << /F1 6 0 R >> >> >>", c)
+	}
+	objs := []string{
+		"<< /Type /Catalog /Pages 2 0 R >>",
+		"<< /Type /Pages /Kids [3 0 R 4 0 R 5 0 R] /Count 3 >>",
+		page(7), page(8), page(9),
+		"<< /Type /Font /Subtype /Type1 /BaseFont /Helvetica >>",
+		content("C40H1"), content("C40H2"), content("C40H3"),
+	}
+	var b bytes.Buffer
+	b.WriteString("%PDF-1.4\n%\xe2\xe3\xcf\xd3\n")
+	offs := make([]int, len(objs))
+	for i, o := range objs {
+		offs[i] = b.Len()
+		fmt.Fprintf(&b, "%d 0 obj\n%s\nendobj\n", i+1, o)
+	}
+	xref := b.Len()
+	fmt.Fprintf(&b, "xref\n1 %d\n", len(objs))
+	for _, o := range offs {
+		fmt.Fprintf(&b, "%010d 00000 n \n", o)
+	}
+	fmt.Fprintf(&b, "trailer\n<< /Size %d /Root 1 0 R >>\nstartxref\n%d\n%%%%EOF\n", len(objs)+1, xref)
+	return b.Bytes()
+}
+
+// applicable: which (operation, input index) pairs exist
+func applicable(op string, ii int) bool {
+	switch {
+	case op == "fill" || strings.HasPrefix(op, "f"):
+		return ii == 0
+	case op == "ustamp":
+		return ii == 1
+	case op == "rmpages":
+		return ii == 0 || ii == 3 // needs more than one page
+	}
+	return true
+}
 
 type input struct {
 	name  string
@@ -442,6 +495,7 @@ func buildWorld(work string) *world {
 		{"marker5.pdf", rawpdf.MarkerDoc(ps, rawpdf.MarkerOpts{Fanout: 2, InfoDict: "/Title (C40 marker) /CreationDate (D:20200101000000Z)"}).Bytes()},
 		{"test.pdf", rd("pkg/testdata/test.pdf")},
 		{"testRot.pdf", rd("pkg/testdata/testRot.pdf")},
+		{"headless.pdf", headlessDoc()},
 	}
 	w.second = input{"simple3.pdf", rawpdf.Simple(3, "C40S")}
 	// fonts for ustamp / fnames / freload: constant directory content
@@ -706,6 +760,8 @@ func runTask(w *world, dir string, op string, in input) (res taskRes) {
 		sec := filepath.Join(dir, "second.pdf")
 		must(os.WriteFile(sec, w.second.bytes, 0644), "write second")
 		fileRes(api.MergeCreateFile([]string{inp, sec}, out, false, c), out)
+	case "rmpages":
+		fileRes(api.RemovePagesFile(inp, out, []string{"2"}, c), out)
 	case "split":
 		od := filepath.Join(dir, "split")
 		must(os.MkdirAll(od, 0755), "mkdir")
@@ -768,7 +824,7 @@ func cmdOps() {
 		for rep := rep0; rep <= rep0; rep++ {
 			for _, op := range opKinds {
 				for ii, in := range w.inputs {
-					if (op == "fill" || strings.HasPrefix(op, "f")) && ii > 0 || op == "ustamp" && ii != 1 {
+					if !applicable(op, ii) {
 						continue
 					}
 					if only := h.Arg("--only"); only != "" && only != op+":"+in.name && !(op == "fill" && strings.HasPrefix(only, "fill:")) {
@@ -816,13 +872,14 @@ func cmdOps() {
 					op = "stamp"
 				}
 			}
-			in := w.inputs[rng.Intn(len(w.inputs))]
-			if op == "fill" || strings.HasPrefix(op, "f") {
-				in = w.inputs[0]
+			ii := rng.Intn(len(w.inputs))
+			if freeing[op] && rng.Intn(2) == 0 {
+				ii = 3 // object-freeing operations on the repaired input, half of the time
 			}
-			if op == "ustamp" { // embedding a user font is slow under the race detector: one small input
-				in = w.inputs[1]
+			for !applicable(op, ii) {
+				ii = (ii + 1) % len(w.inputs)
 			}
+			in := w.inputs[ii]
 			tasks[i] = task{op, in, time.Duration(rng.Intn(3000)) * time.Microsecond}
 		}
 		res := make([]taskRes, n)
@@ -847,7 +904,236 @@ func cmdOps() {
 			total++
 		}
 	}
-	h.Summary(map[string]any{"tasks": total, "procs": runtime.GOMAXPROCS(0)})
+	// after the concurrent phase, in the SAME process: the cheap operations once more, one at a time (state left behind by
+	// the concurrent phase or by an earlier operation shows up here); object-freeing operations first, then the readers
+	post := 0
+	type pair struct {
+		op string
+		ii int
+	}
+	// an object-freeing operation on the repaired input is directly followed by a reader of an xref-stream input
+	plan := []pair{{"merge", 3}, {"read", 1}, {"rmpages", 3}, {"validate", 1}, {"optimize", 3}, {"read", 2}, {"split", 1}}
+	seen := map[pair]bool{}
+	for _, p := range plan {
+		seen[p] = true
+	}
+	for _, op := range []string{"merge", "rmpages", "optimize", "read", "validate", "split", "encrypt"} {
+		for ii := range w.inputs {
+			if applicable(op, ii) && !seen[pair{op, ii}] {
+				plan = append(plan, pair{op, ii})
+			}
+		}
+	}
+	for _, p := range plan {
+		t0 := time.Now()
+		r := runTask(w, filepath.Join(work, fmt.Sprintf("post-%s-%d", p.op, p.ii)), p.op, w.inputs[p.ii])
+		r.Round, r.G, r.N, r.Ms = -1, post, 1, time.Since(t0).Milliseconds()
+		out.Put(r)
+		post++
+	}
+	h.Summary(map[string]any{"tasks": total, "post": post, "procs": runtime.GOMAXPROCS(0)})
+}
+
+// ------------------------------------------------------------------------------------------------ lifecycle replay
+
+// One schedule of spec/ConcLife.tla replayed in THIS fresh process (the sync.Once state of the font cache exists once per
+// process): calls (first lookup / lookup / reload) are started one after the other; the directory scan of whichever call
+// loads the fonts is held open at a gate - the first .gob of the font directory is a named pipe, the harness holds its
+// write end and feeds the font only when the schedule says Open. A watchdog decides "hang".
+type lifeCase struct {
+	ID     int      `json:"id"`
+	Kinds  []string `json:"kinds"`  // "lookup" | "reload", in start order
+	OpenAt int      `json:"openAt"` // the gate opens after this many calls were started
+	Expect []struct {
+		Obs   []int `json:"obs"`
+		Found int   `json:"found"`
+	} `json:"expect"`
+}
+
+type lifeCall struct {
+	Kind          string `json:"kind"`
+	API           string `json:"api"`
+	Returned      bool   `json:"returned"`
+	BeforeOpen    bool   `json:"before_open"` // had returned when the gate was still closed
+	Obs           []int  `json:"obs"`
+	Found         int    `json:"found"`
+	Err           string `json:"err"`
+	Ms            int64  `json:"ms"`
+	StartedClosed bool   `json:"started_closed"`
+}
+
+type lifeRes struct {
+	ID      int        `json:"id"`
+	Kinds   []string   `json:"kinds"`
+	OpenAt  int        `json:"openAt"`
+	Procs   int        `json:"procs"`
+	Arrived bool       `json:"arrived"` // the first call reached the directory scan (or no gate was needed)
+	Hang    bool       `json:"hang"`
+	Calls   []lifeCall `json:"calls"`
+	Stacks  string     `json:"stacks"`
+}
+
+func cmdLife() {
+	work, stage, out := h.Arg("--work"), h.Arg("--stage"), h.Arg("--out")
+	watchdog := time.Duration(h.ArgInt("--watchdog", 20)) * time.Second
+	var c lifeCase
+	must(json.Unmarshal([]byte(h.Arg("--case")), &c), "case json")
+	live := filepath.Join(work, "fonts")
+	must(os.MkdirAll(live, 0755), "mkdir")
+	fifo := filepath.Join(live, fontName(1)+".gob")
+	gate := filepath.Join(work, "gate.fifo")
+	must(syscall.Mkfifo(fifo, 0644), "mkfifo")
+	must(os.Link(fifo, gate), "link fifo")
+	for _, i := range []int{2, 3} {
+		must(os.Link(filepath.Join(stage, fontName(i)+".gob"), filepath.Join(live, fontName(i)+".gob")), "link font")
+	}
+	gob1, err := os.ReadFile(filepath.Join(stage, fontName(1)+".gob"))
+	must(err, "read staged font")
+	font.UserFontDir = live // set once, before any goroutine is started
+
+	n := len(c.Kinds)
+	res := lifeRes{ID: c.ID, Kinds: c.Kinds, OpenAt: c.OpenAt, Procs: runtime.GOMAXPROCS(0), Calls: make([]lifeCall, n), Arrived: true}
+	returned := make([]atomic.Bool, n)
+	results := make([]lifeCall, n)
+	done := make(chan int, n)
+	var opened atomic.Bool
+	var wfd *os.File
+	feed := func(f *os.File) {
+		f.Write(gob1)
+		f.Close()
+	}
+	openGate := func() {
+		for i := 0; i < n; i++ {
+			res.Calls[i].BeforeOpen = returned[i].Load()
+		}
+		opened.Store(true)
+		// scans that start from now on find a regular file
+		tmp := filepath.Join(work, "font1.tmp")
+		must(os.Link(filepath.Join(stage, fontName(1)+".gob"), tmp), "link font")
+		must(os.Rename(tmp, fifo), "rename over fifo")
+		if wfd != nil {
+			go feed(wfd)
+		}
+		// a scan that resolved the name to the pipe just before the rename is served as well
+		go func() {
+			for {
+				if f, err := os.OpenFile(gate, os.O_WRONLY|syscall.O_NONBLOCK, 0); err == nil {
+					feed(f)
+				}
+				time.Sleep(2 * time.Millisecond)
+			}
+		}()
+	}
+	startCall := func(i int) {
+		api := c.Kinds[i]
+		if api == "lookup" {
+			api = []string{"names", "isuser", "width"}[(c.ID+i)%3]
+		}
+		closed := !opened.Load()
+		go func() {
+			r := lifeCall{Kind: c.Kinds[i], API: api, Obs: []int{}, StartedClosed: closed}
+			t0 := time.Now()
+			var err error
+			switch api {
+			case "reload":
+				err = font.ReloadUserFonts()
+			case "names":
+				var ss []string
+				ss, err = font.UserFontNames()
+				for _, s := range ss {
+					r.Obs = append(r.Obs, fontIndex(s))
+				}
+				sort.Ints(r.Obs)
+			case "isuser":
+				var ok bool
+				ok, err = font.IsUserFont(fontName(1))
+				if ok {
+					r.Found = 1
+				}
+			case "width":
+				var wd float64
+				wd, err = font.TextWidth("C40", fontName(1), 12)
+				if err == nil && wd > 0 {
+					r.Found = 1
+				}
+			}
+			if err != nil {
+				r.Err = err.Error()
+			}
+			r.Ms = time.Since(t0).Milliseconds()
+			r.Returned = true
+			results[i] = r
+			returned[i].Store(true)
+			done <- i
+		}()
+	}
+	for i := 0; i < n; i++ {
+		if i == c.OpenAt {
+			openGate()
+		}
+		startCall(i)
+		if !opened.Load() && wfd == nil {
+			// wait until the loading call sits in the directory scan: its open of the pipe is answered by our write end
+			res.Arrived = false
+			for t0 := time.Now(); time.Since(t0) < 10*time.Second; time.Sleep(time.Millisecond) {
+				if f, err := os.OpenFile(gate, os.O_WRONLY|syscall.O_NONBLOCK, 0); err == nil {
+					wfd, res.Arrived = f, true
+					break
+				}
+			}
+		}
+		time.Sleep(30 * time.Millisecond)
+	}
+	if c.OpenAt >= n {
+		openGate()
+	}
+	got := 0
+	timer := time.After(watchdog)
+wait:
+	for got < n {
+		select {
+		case <-done:
+			got++
+		case <-timer:
+			res.Hang = true
+			break wait
+		}
+	}
+	for i := 0; i < n; i++ {
+		bo := res.Calls[i].BeforeOpen
+		if returned[i].Load() {
+			res.Calls[i] = results[i]
+		} else {
+			res.Calls[i] = lifeCall{Kind: c.Kinds[i], API: c.Kinds[i], Obs: []int{}}
+		}
+		res.Calls[i].BeforeOpen = bo
+	}
+	if res.Hang {
+		buf := make([]byte, 1<<18)
+		buf = buf[:runtime.Stack(buf, true)]
+		var keep []string
+		for _, g := range strings.Split(string(buf), "\n\n") {
+			if strings.Contains(g, "pdfcpu/pkg/font.") {
+				ls := strings.Split(g, "\n")
+				var fn []string
+				for _, l := range ls {
+					if !strings.HasPrefix(l, "\t") && !strings.HasPrefix(l, "goroutine ") && !strings.HasPrefix(l, "created by") {
+						fn = append(fn, strings.SplitN(l, "(", 2)[0])
+					}
+				}
+				if len(fn) > 8 {
+					fn = fn[:8]
+				}
+				keep = append(keep, ls[0]+" "+strings.Join(fn, " < "))
+			}
+		}
+		res.Stacks = strings.Join(keep, " || ")
+	}
+	w := h.NewW(out)
+	w.Put(res)
+	w.Close()
+	h.Summary(map[string]any{"life": c.ID, "hang": res.Hang})
+	os.Exit(0) // goroutines of a hung schedule never end
 }
 
 // ------------------------------------------------------------------------------------------------ control
